@@ -446,8 +446,21 @@ class Session:
         return f"plain {kind}"
 
     def make_event(self, kind, has_ui, size=None):
+        ev = self.make_event_(kind, has_ui, size)
+        if kind in ("aarq", "rlrq"):
+            self.last_acse = getattr(self, "last_acse", {})
+            self.last_acse[kind] = ev
+        return ev
+
+    def make_event_(self, kind, has_ui, size=None):
         from dlms_cosem.protocol import acse
         from dlms_cosem import enumerations as en
+        if kind in ("aarq", "rlrq") and int(has_ui) == 4:
+            # the very object that was handed to send() the last time (a new attempt after a rejection, a second association)
+            prev = getattr(self, "last_acse", {}).get(kind)
+            if prev is not None:
+                return prev
+            has_ui = 1
         if kind == "aarq" and int(has_ui) in (2, 3):
             # an AARQ the caller builds itself (application context without ciphering, plain InitiateRequest):
             # with keys set the connection still has to cipher the InitiateRequest
